@@ -363,7 +363,10 @@ func execC16(x *X, scAny any) {
 		cs := sc.Conns[ci]
 		// the client stayed connected and kept reading until the very end, and the handler completed
 		// before the grace period expired without being cancelled: its response must have arrived
-		if (cs.Phase == "request" || cs.Phase == "pipeline" || cs.Phase == "two") && !cancelled[id] && ended[id].At < w.shutdownBegan+grace && ri < cl.sent {
+		// ... unless the forced cancellation after the grace period can have hit the request on its way out (between
+		// the handler's return and the write of the response): that is "cancelled after the grace period". It cannot
+		// have happened when Shutdown itself returned before the grace period was over.
+		if (cs.Phase == "request" || cs.Phase == "pipeline" || cs.Phase == "two") && !cancelled[id] && ended[id].At < w.shutdownBegan+grace && atReturn.at < w.shutdownBegan+grace && ri < cl.sent {
 			if len(cl.got) <= ri {
 				x.Reportf("C16.in-flight-response-lost", "response", "request %s was being handled when Shutdown began (handler %v..%v, shutdown at %v), the client stayed connected and reading, but got %d response(s)", id, st.At, ended[id].At, w.shutdownBegan, len(cl.got))
 				break
@@ -442,7 +445,7 @@ func init() {
 		Config: func(any) simrt.Config {
 			return simrt.Config{MaxSteps: 200000, IdleProbe: 4 * time.Second, ClockJumpPM: 10}
 		},
-		Runs: clientRuns(40000, 4000000),
+		Runs: clientRuns(150000, 8000000),
 		Floors: []Floor{
 			{Name: "phase-x-handler-x-timing", Count: func(t string) int { return len(c16Floor(t)) }, Scenario: func(t string, i int) any { return c16Floor(t)[i] }},
 			{Name: "single-preemption", Sweep: true, Count: func(t string) int { return len(c16SweepFloor(t)) }, Scenario: func(t string, i int) any { return c16SweepFloor(t)[i] }},
